@@ -153,10 +153,16 @@ def _clauses(cc, backend="pandas"):
     if rep["n_message_entries"] != len(rep["errors"]):
         out.append(("message_entries", "message", f"entries={rep['n_message_entries']} errors={len(rep['errors'])}"))
     if backend == "pandas" and ref is not None and ref.report_defined and ref.verdict == "REJECT":
-        exp, got = expected_rows(ref), observed_rows(rep)
-        series_part = expected_rows(ref, skip_ctx=("Index", "MultiIndex"))
+        skip = set(ref.unspec_checks) | {(c, None, i) for (c, _col, i) in ref.unspec_checks if c == "MultiIndex"}
+
+        def settled(rows):
+            return Counter({k: v for k, v in rows.items() if (k[0], k[1], k[2]) not in skip}) if skip else rows
+
+        exp, got = settled(expected_rows(ref)), settled(observed_rows(rep))
+        series_raw = expected_rows(ref, skip_ctx=("Index", "MultiIndex"))
+        series_part = settled(series_raw)
         if (exp != got and cc["schema"].get("kind") == "series" and cc["schema"].get("index") is not None
-                and series_part and series_part != exp and got == series_part):
+                and series_raw and series_part != exp and got == series_part):
             # structural finding: SeriesSchema.validate(lazy=True) raises after the value checks and
             # never reaches the index schema, so index violations are missing from the report
             out.append(("report_exact.series_index_skipped", "@series_errors_hide_index_errors",
